@@ -437,10 +437,12 @@ Section Process.
     destruct fwd as [f|].
     - destruct (f ms _) as [e0|] eqn:E; [|intros []].
       destruct rev as [rv|].
-      + intros H. apply rev_loop_sound in H as (st & H1 & [= <-]). split; [exists (N.min (nlen mem) (sat_add ms MAX_SPLIT_MATCH_LENGTH)); split; [lia|exact E]|eauto].
+      + intros H. apply rev_loop_sound in H as (st & H1 & H2). destruct (s <=? e0); [|discriminate]. injection H2 as <-.
+        split; [exists (N.min (nlen mem) (sat_add ms MAX_SPLIT_MATCH_LENGTH)); split; [lia|exact E]|eauto].
       + intros [[= <- <-]|[]]. split; [exists (N.min (nlen mem) (sat_add ms MAX_SPLIT_MATCH_LENGTH)); split; [lia|exact E]|reflexivity].
     - destruct rev as [rv|].
-      + intros H. apply rev_loop_sound in H as (st & H1 & [= <-]). split; eauto.
+      + intros H. apply rev_loop_sound in H as (st & H1 & H2). destruct (s <=? me); [|discriminate]. injection H2 as <-.
+        split; eauto.
       + intros [[= <- <-]|[]]. split; eauto.
   Qed.
 
@@ -523,11 +525,13 @@ Section Process.
                 match option_map (fun h0 => half_fwd md h0 MAscii mem) (s_post d) with
                 | Some f => f s (N.min (nlen mem) (sat_add s MAX_SPLIT_MATCH_LENGTH))
                 | None => Some (s + nlen l)
-                end = Some e).
+                end = Some e /\ s <= e).
       { unfold post_ok in Hpost. fold md in Hpost. destruct (s_post d) as [p|]; cbn [option_map].
-        - rewrite half_fwd_eq by (try exact Hp; lia). rewrite plain_dfa_fwd by exact Hp. eapply lf_end_some; eauto.
-        - eauto. }
-      destruct Hend as (e & He). exists e. split; [exact Hh|].
+        - rewrite half_fwd_eq by (try exact Hp; lia). rewrite plain_dfa_fwd by exact Hp.
+          destruct (lf_end_some (flags_of md) mem p s _ b Hpost Hlim) as (e & He). exists e. split; [exact He|].
+          apply lf_end_In in He as [He _]. apply ends_ge in He. exact He.
+        - exists (s + nlen l). split; [reflexivity|lia]. }
+      destruct Hend as (e & He & Hse). exists e. split; [exact Hh|].
       apply filter_In. split; [|apply plain_fullword; exact Hp].
       unfold validate_nongreedy. rewrite He.
       unfold pre_ok in Hpre. fold md in Hpre. destruct (s_pre d) as [q|]; cbn [option_map].
@@ -536,7 +540,7 @@ Section Process.
           apply least_start_dfa_rev. exact Hp.
         * lia.
         * exact Hpre.
-        * reflexivity.
+        * cbn beta. replace (a <=? e) with true by lia. reflexivity.
         * unfold rev_fuel. lia.
       + subst a. left. reflexivity.
     - (* Greedy *)
